@@ -2,9 +2,14 @@ package rules
 
 import (
 	"fmt"
+	"go/ast"
+	"go/constant"
+	"go/token"
 	"go/types"
 	"sort"
 	"strings"
+
+	"golang.org/x/tools/go/packages"
 
 	"golang.org/x/tools/go/ssa"
 
@@ -670,4 +675,177 @@ func describeValue(v ssa.Value) string {
 		return "result of " + describeValue(x.Tuple)
 	}
 	return "value of type " + types.TypeString(v.Type(), func(p *types.Package) string { return p.Name() })
+}
+
+func init() {
+	register(&Rule{ID: "FL-2", Min: 3, Run: runFL2,
+		Doc: "the exact comparison stays digit-wise: no function reachable from Number.Cmp calls anything outside the library (no strconv/math parsing of digit strings into machine integers, whose range would silently bound the comparison)"})
+	register(&Rule{ID: "EE-1", Min: 4, Run: runEE1,
+		Doc: "exponent marker case symmetry: in the numeral code (internal/json and the root package's type guesser) every test of a byte against 'e' is paired with the same test against 'E' (same case clause or same || chain) and vice versa, so 1e5 and 1E5 are classified alike"})
+}
+
+func runFL2(c *load.Ctx, r *report.RuleResult) {
+	cmp := c.Func(pkgJSON, "Number.Cmp")
+	if cmp == nil {
+		r.Unk("anchor|json.Number.Cmp", "", "not found")
+		return
+	}
+	reach := reachableFrom(c, cmp)
+	var fns []*ssa.Function
+	for f := range reach {
+		fns = append(fns, f)
+	}
+	sort.Slice(fns, func(i, j int) bool { return load.FuncKey(fns[i]) < load.FuncKey(fns[j]) })
+	for _, fn := range fns {
+		key := "digitwise|" + load.FuncKey(fn)
+		var ext []string
+		for _, b := range fn.Blocks {
+			for _, ins := range b.Instrs {
+				call, ok := ins.(ssa.CallInstruction)
+				if !ok {
+					continue
+				}
+				if sc := call.Common().StaticCallee(); sc != nil && !load.FuncInModule(sc) {
+					ext = append(ext, sc.String()+" at "+c.Pos(ins.Pos()))
+				}
+			}
+		}
+		if len(ext) > 0 {
+			r.Bad(key, c.Pos(fn.Pos()), "the exact comparison calls outside the library: "+strings.Join(ext, "; ")+" — digit strings of any length must be compared digit by digit")
+		} else {
+			r.OK(key, c.Pos(fn.Pos()), "no call outside the library")
+		}
+	}
+}
+
+func runEE1(c *load.Ctx, r *report.RuleResult) {
+	isExp := func(p *packages.Package, e ast.Expr) (string, bool) {
+		tv, ok := p.TypesInfo.Types[e]
+		if !ok || tv.Value == nil {
+			return "", false
+		}
+		if tv.Value.Kind() != constant.Int {
+			return "", false
+		}
+		if v, ok := constant.Int64Val(tv.Value); ok && (v == 'e' || v == 'E') {
+			if _, isLit := ast.Unparen(e).(*ast.BasicLit); isLit {
+				return string(rune(v)), true
+			}
+		}
+		return "", false
+	}
+	c.EachFuncDecl(func(p *packages.Package, _ *ast.File, fd *ast.FuncDecl) {
+		rel := load.Rel(p.PkgPath)
+		if fd.Body == nil || (rel != pkgJSON && rel != ".") {
+			return
+		}
+		fkey := load.DeclKey(p, fd)
+		n := 0
+		ast.Inspect(fd.Body, func(node ast.Node) bool {
+			switch x := node.(type) {
+			case *ast.CaseClause:
+				seen := map[string]bool{}
+				for _, e := range x.List {
+					if l, ok := isExp(p, e); ok {
+						seen[l] = true
+					}
+				}
+				if len(seen) > 0 {
+					n++
+					key := fmt.Sprintf("expcase|%s|case#%d", fkey, n)
+					if seen["e"] && seen["E"] {
+						r.OK(key, c.Pos(x.Pos()), "case lists both 'e' and 'E'")
+					} else {
+						r.Bad(key, c.Pos(x.Pos()), "a case tests only one spelling of the exponent marker: numerals written with the other case are classified differently")
+					}
+				}
+			case *ast.BinaryExpr:
+				if x.Op != token.LOR {
+					// a lone comparison not inside an || chain
+					if x.Op == token.EQL || x.Op == token.NEQ {
+						if l, ok := isExp(p, x.Y); ok {
+							if !inOrChainWithOther(p, fd.Body, x, l, isExp) {
+								n++
+								r.Bad(fmt.Sprintf("expcase|%s|cmp#%d", fkey, n), c.Pos(x.Pos()), "a byte is compared with '"+l+"' only: the other spelling of the exponent marker is not handled alike")
+							}
+						}
+					}
+					return true
+				}
+				// top of an || chain: collect its leaves
+				if parentIsLor(fd.Body, x) {
+					return true
+				}
+				seen := map[string]bool{}
+				collectOr(x, func(leaf ast.Expr) {
+					if be, ok := ast.Unparen(leaf).(*ast.BinaryExpr); ok && be.Op == token.EQL {
+						if l, ok := isExp(p, be.Y); ok {
+							seen[l] = true
+						}
+					}
+				})
+				if len(seen) > 0 {
+					n++
+					key := fmt.Sprintf("expcase|%s|or#%d", fkey, n)
+					if seen["e"] && seen["E"] {
+						r.OK(key, c.Pos(x.Pos()), "tests both 'e' and 'E'")
+					} else {
+						r.Bad(key, c.Pos(x.Pos()), "an || chain tests only one spelling of the exponent marker")
+					}
+				}
+			}
+			return true
+		})
+	})
+}
+
+func collectOr(e ast.Expr, leaf func(ast.Expr)) {
+	if be, ok := ast.Unparen(e).(*ast.BinaryExpr); ok && be.Op == token.LOR {
+		collectOr(be.X, leaf)
+		collectOr(be.Y, leaf)
+		return
+	}
+	leaf(e)
+}
+
+func parentIsLor(root ast.Node, x *ast.BinaryExpr) bool {
+	found := false
+	ast.Inspect(root, func(n ast.Node) bool {
+		if be, ok := n.(*ast.BinaryExpr); ok && be.Op == token.LOR {
+			if ast.Unparen(be.X) == ast.Expr(x) || ast.Unparen(be.Y) == ast.Expr(x) {
+				found = true
+			}
+		}
+		return !found
+	})
+	return found
+}
+
+// inOrChainWithOther: the comparison is a leaf of an || chain that also tests the other case.
+func inOrChainWithOther(p *packages.Package, root ast.Node, x *ast.BinaryExpr, l string, isExp func(*packages.Package, ast.Expr) (string, bool)) bool {
+	ok := false
+	ast.Inspect(root, func(n ast.Node) bool {
+		be, isBe := n.(*ast.BinaryExpr)
+		if !isBe || be.Op != token.LOR {
+			return true
+		}
+		has, other := false, false
+		collectOr(be, func(leaf ast.Expr) {
+			lb, isB := ast.Unparen(leaf).(*ast.BinaryExpr)
+			if !isB {
+				return
+			}
+			if lb == x {
+				has = true
+			}
+			if ll, isE := isExp(p, lb.Y); isE && ll != l {
+				other = true
+			}
+		})
+		if has && other {
+			ok = true
+		}
+		return true
+	})
+	return ok
 }
